@@ -154,6 +154,9 @@ def make_cases(rng, deep):
     for m in rng.sample(models, 40 if deep else 12):
         fam += [m + "X", m + "_2", m[:-1] if len(m) > 3 else m + "Q", m + "-V2", "MY" + m, m + "-" + m]
     fam += ["CB3PI", "CB3PI-MPP-X", "CB3PI-", "NEW_MODEL", "new-model-1", "X", "A-B-C", "PHSP_", "P", "SVS_CP_ISO_2"]
+    # names longer than any published one (the longest has 22 characters), and a one-character one
+    fam += ["Z" * 23, "BToDiBaryonlnupQCD_TUNE2", "HQET3_WITH_LATTICE_FORM_FACTORS", "Q",
+            "A_VERY_LONG_MODEL_NAME_FOR_A_PRIVATE_GENERATOR_RELEASE_2026", "L" + "o" * 60 + "ng", max(models, key=len) + "_LONGER"]
     fam = [f for f in dict.fromkeys(fam) if f not in mset and f[-1] in WORDCH and all(ch in WORDCH + "-" for ch in f)]
     for i in range(0, len(fam), 3):
         reg = fam[i:i + 3]
@@ -176,6 +179,13 @@ def make_cases(rng, deep):
                     c = case(m, listed=listed)
                     c["context"] = f"published {m} with registered relative {w}"
                     break
+    # 3b. many names registered at once (more than a handful): each of them, first to last, is a model name
+    many = [f"USERMODEL_{k:02d}" for k in range(1, 41)]
+    for k, w in enumerate(many):
+        if k % 4 == 0 or k >= 36:
+            c = case(w, listed=models + many, params=rng.choice([[], ["0.5"]]), split_registration=bool(k % 8),
+                     reg_mode=["normal", "after_grammar", "parse_twice"][k % 3])
+            c["context"] = f"one of 40 names registered at once ({c['reg_mode']})"
     # 4. near-miss unknown words must make parsing fail (with and without parameters), defined aliases are accepted
     for m in (models if deep else rng.sample(models, 45)):
         muts = [m[:-1], m + "X", m[0] + m, m[:1].lower() + m[1:], m.replace("_", "", 1), m + "_", m[:len(m) // 2] + "Z" + m[len(m) // 2 + 1:]]
